@@ -73,7 +73,117 @@ pub trait ByteReader {
         ensures r is Ok ==> r->Ok_0@.len() == n && old(self).rest().len() >= n * S::width()
                 && old(self).rest().take(n * S::width()) == enc_many(r->Ok_0@)
                 && final(self).rest() == old(self).rest().skip(n * S::width()),
-            old(self).rest().len() < n * S::width() ==> r is Err;
+            old(self).rest().len() < n * S::width() ==> r is Err,
+            // completeness: enough bytes, every chunk a canonical encoding ==> Ok
+            (old(self).rest().len() >= n * S::width() && all_dec_ok::<S>(old(self).rest(), n as int)) ==> r is Ok;
 }
+/// the first n chunks of `b` are canonical encodings of S
+pub open spec fn all_dec_ok<S: Enc>(b: Seq<u8>, n: int) -> bool {
+    forall|i: int| 0 <= i < n ==> S::dec_ok(#[trigger] b.subrange(i * S::width(), (i + 1) * S::width()))
+}
+pub broadcast proof fn lemma_le_len(v: int, n: int)
+    requires n >= 0
+    ensures #[trigger] le_bytes(v, n).len() == n
+    decreases n
+{ if n > 0 { lemma_le_len(v / 256, n - 1); } }
+/// `pre` followed by `tail` (trigger for the round-trip statements)
+pub open spec fn with_tail(pre: Seq<u8>, tail: Seq<u8>) -> Seq<u8> { pre + tail }
+pub proof fn lemma_enc_felt(x: Felt)
+    ensures x.enc().len() == 8, le_val(x.enc()) == x.val(), Felt::dec_ok(x.enc()), Felt::dec(x.enc()) == x
+{
+    broadcast use super::felt_model::felt_axioms;
+    lemma_p256_consts(); lemma_le_roundtrip(x.val(), 8);
+}
+pub proof fn lemma_enc_many_felt(a: Seq<Felt>)
+    ensures enc_many(a).len() == 8 * a.len(),
+        forall|i: int| 0 <= i < a.len() ==> #[trigger] enc_many(a).subrange(i * 8, (i + 1) * 8) == a[i].enc(),
+    decreases a.len()
+{
+    if a.len() > 0 {
+        lemma_enc_felt(a[0]);
+        lemma_enc_many_felt(a.skip(1));
+        let e = enc_many(a); let t = enc_many(a.skip(1));
+        assert(e =~= a[0].enc() + t);
+        assert(a[0].enc().len() == 8 && t.len() == 8 * (a.len() - 1));
+        assert forall|i: int| 0 <= i < a.len() implies #[trigger] e.subrange(i * 8, (i + 1) * 8) == a[i].enc() by {
+            if i == 0 { assert(e.subrange(0, 8) =~= a[0].enc()); }
+            else {
+                assert(e.subrange(i * 8, (i + 1) * 8) =~= t.subrange((i - 1) * 8, (i - 1 + 1) * 8));
+                assert(t.subrange((i - 1) * 8, (i - 1 + 1) * 8) == a.skip(1)[i - 1].enc());
+                assert(a.skip(1)[i - 1] == a[i]);
+            }
+        }
+    }
+}
+pub proof fn lemma_enc_many_felt_inj(a: Seq<Felt>, b: Seq<Felt>)
+    requires a.len() == b.len(), enc_many(a) == enc_many(b)
+    ensures a =~= b
+{
+    lemma_enc_many_felt(a); lemma_enc_many_felt(b);
+    assert forall|i: int| 0 <= i < a.len() implies a[i] == b[i] by {
+        lemma_enc_felt(a[i]); lemma_enc_felt(b[i]);
+        assert(enc_many(a).subrange(i * 8, (i + 1) * 8) == a[i].enc());
+        assert(enc_many(b).subrange(i * 8, (i + 1) * 8) == b[i].enc());
+    }
+}
+pub open spec fn p256(n: int) -> int
+    decreases n
+{ if n <= 0 { 1 } else { 256 * p256(n - 1) } }
+/// little-endian encode / decode are inverse on values that fit
+pub proof fn lemma_le_roundtrip(v: int, n: int)
+    requires n >= 0, 0 <= v < p256(n)
+    ensures le_bytes(v, n).len() == n, le_val(le_bytes(v, n)) == v
+    decreases n
+{
+    if n > 0 {
+        lemma_le_roundtrip(v / 256, n - 1);
+        let b = le_bytes(v, n);
+        assert(b.skip(1) =~= le_bytes(v / 256, n - 1));
+        assert(b[0] as int == v % 256);
+    }
+}
+pub proof fn lemma_p256_consts()
+    ensures p256(2) == 0x1_0000, p256(4) == 0x1_0000_0000, p256(8) == 0x1_0000_0000_0000_0000
+{
+    assert(p256(2) == 0x1_0000) by (compute_only);
+    assert(p256(4) == 0x1_0000_0000) by (compute_only);
+    assert(p256(8) == 0x1_0000_0000_0000_0000) by (compute_only);
+}
+/// decoding a u64 / Felt chunk
+pub proof fn lemma_enc_u64(x: u64)
+    ensures x.enc().len() == 8, le_val(x.enc()) == x as int
+{ lemma_p256_consts(); lemma_le_roundtrip(x as int, 8); }
+pub proof fn lemma_enc_many_u64(a: Seq<u64>)
+    ensures enc_many(a).len() == 8 * a.len(),
+        forall|i: int| 0 <= i < a.len() ==> #[trigger] enc_many(a).subrange(i * 8, (i + 1) * 8) == a[i].enc(),
+    decreases a.len()
+{
+    if a.len() > 0 {
+        lemma_enc_u64(a[0]);
+        lemma_enc_many_u64(a.skip(1));
+        let e = enc_many(a); let t = enc_many(a.skip(1));
+        assert(e =~= a[0].enc() + t);
+        assert forall|i: int| 0 <= i < a.len() implies #[trigger] e.subrange(i * 8, (i + 1) * 8) == a[i].enc() by {
+            if i == 0 { assert(e.subrange(0, 8) =~= a[0].enc()); }
+            else {
+                assert(e.subrange(i * 8, (i + 1) * 8) =~= t.subrange((i - 1) * 8, i * 8));
+                assert(a.skip(1)[i - 1] == a[i]);
+            }
+        }
+    }
+}
+/// equal encodings of equally long u64 lists ==> equal lists
+pub proof fn lemma_enc_many_u64_inj(a: Seq<u64>, b: Seq<u64>)
+    requires a.len() == b.len(), enc_many(a) == enc_many(b)
+    ensures a =~= b
+{
+    lemma_enc_many_u64(a); lemma_enc_many_u64(b);
+    assert forall|i: int| 0 <= i < a.len() implies a[i] == b[i] by {
+        lemma_enc_u64(a[i]); lemma_enc_u64(b[i]);
+        assert(enc_many(a).subrange(i * 8, (i + 1) * 8) == a[i].enc());
+        assert(enc_many(b).subrange(i * 8, (i + 1) * 8) == b[i].enc());
+    }
+}
+
 } // verus!
 }
